@@ -229,8 +229,17 @@ def wrapper_rules(ctx, rep, prop):
             if isinstance(p.ret, VecVal):
                 got = [walkers.sym_part(lab(c.val)) for c in p.ret.elems]
             ok = okp and got == kept and p.exit == "return"
+            seqmsg = ""
+            if not any(v == "Break" for _, v in branch_conds(p)):
+                conds_t, _ = type_conds_of(p)
+                recs_ = [e for e in p.effects if e[0] == "recurse"]
+                exp_ = visit_lines(expand(lines, conds_t, recs_[0][1] if recs_ else "<rec>", {"type_fmt": "Type %s"}))
+                ev_ = visit_lines(events_cb(p, "P"))
+                if ev_ != exp_:
+                    ok = False
+                    seqmsg = "; the predicate must be asked on exactly the walker's sequence %s, was asked on %s" % (exp_, ev_)
             rep.check(ok, "V5", "%s|V5|filter_symbols|%s|%d" % (prop, level, n), cfg.where(ff),
-                      "filter_symbols must return exactly the visited symbols for which the predicate held, in visit order: expected %r, returned %r" % (kept, got))
+                      "filter_symbols must return exactly the visited symbols for which the predicate held, in visit order: expected %r, returned %r%s" % (kept, got, seqmsg))
         rep.floor("V5", "filter_symbols paths (%s)" % level, n, 4)
         # ---- find_symbol
         fs = facts.fn("traverse::find_symbol")
@@ -258,6 +267,16 @@ def wrapper_rules(ctx, rep, prop):
             else:
                 ok = isinstance(ret, AdtVal) and ret.vname == "None"
                 msg = "predicate false everywhere: find_symbol must return None; returned %r" % (ret,)
+            # the predicate is asked in the walker's order of this level, from the start (a prefix of it when a match stops the search)
+            if not any(v == "Break" for _, v in branch_conds(p) if True) or first_true is not None:
+                conds_t, _ = type_conds_of(p)
+                recs_ = [e for e in p.effects if e[0] == "recurse"]
+                exp_ = visit_lines(expand(lines, conds_t, recs_[0][1] if recs_ else "<rec>", {"type_fmt": "Type %s"}))
+                ev_ = visit_lines(events_cb(p, "P"))
+                seq_ok = ev_ == exp_[:len(ev_)] and (first_true is not None or rec_break or len(ev_) == len(exp_))
+                if not seq_ok:
+                    ok = False
+                    msg = "find_symbol(%s) must ask the predicate in the walker's order for that level, from the first symbol on (a match is the FIRST symbol in traversal order): walker order %s, predicate asked on %s" % (level, exp_, ev_)
             rep.check(ok and p.exit == "return", "V5", "%s|V5|find_symbol|%s|%d" % (prop, level, n), cfg.where(fs), msg)
         rep.floor("V5", "find_symbol paths (%s)" % level, n, 3)
 
